@@ -170,8 +170,8 @@ theorem exVM_inv : QM.VM.Inv exProg exAnns 0 exVM := by
   · intro v hv; simp [exVM] at hv; subst hv; rfl
   · intro st h; cases h
   · intro st h; cases h
-  · exact .normal exProg.functions[0] ⟨1, 1⟩ (.tailCall true)
-      ⟨rfl, fun _ => rfl, by decide +kernel, rfl⟩ (by decide) rfl rfl (by intro st h; cases h)
+  · exact .normal exProg.functions[0] ⟨1, 1, .none⟩ (.tailCall true)
+      ⟨rfl, fun _ => rfl, by decide +kernel, rfl⟩ (by decide) rfl rfl (by intro st h; cases h) (by simp)
 
 /-- all hypotheses of `tail_loop_heap_bound` hold for it … -/
 example :
